@@ -1341,6 +1341,18 @@ func c07Generate(r *rand.Rand, id int) *c07Case {
 		}
 		g.kinds["nested-groups"]++
 	}
+	if id%12 == 5 {
+		// a deep layout: twenty groups nested in one another with a node of the managed type at the bottom (and the
+		// holders of later operations anywhere along the chain)
+		at := storeRootID
+		for i := 0; i < 20; i++ {
+			grp := g.fresh("g")
+			pre = append(pre, g.createOps(grp, "group", at)...)
+			at = grp
+		}
+		pre = append(pre, g.createOps(g.fresh("n"), c07TypeNode, at)...)
+		g.kinds["deep-groups"]++
+	}
 	for i, n := 0, 1+g.r.Intn(3); i < n; i++ {
 		pre = append(pre, g.createOps(g.fresh("n"), c07TypeNode, g.holder())...)
 	}
